@@ -271,7 +271,7 @@ def settle(P, thread, helper=None, limit=10.0):
     return False
 
 
-SLOW = 2.0            # seconds of real time after which a blocked call / a thread that does not park is a verdict
+SLOW = 8.0            # seconds of real time after which a blocked call / a thread that does not park is a verdict
 _ABORT = [False]      # per worker process: after one such verdict the remaining paths are not run (each would wait again)
 
 
